@@ -18,6 +18,8 @@ import (
 	"golang.org/x/tools/go/packages"
 )
 
+type pkgT = packages.Package
+
 func repoDir() string {
 	if d := os.Getenv("VERIF_REPO"); d != "" {
 		return d
@@ -122,6 +124,11 @@ func TestC01Sites(t *testing.T) {
 	for i, s := range nondet {
 		nd[i] = cstr(s)
 	}
-	out.Emit(Case{Coq: fmt.Sprintf("SitesCase %s %s", clist(ms), clist(nd)), Kind: "sites", Nontrivial: true, Key: "sites",
-		Human: map[string]interface{}{"map_range_sites": mapSites, "nondeterminism_sources": nondet, "packages": len(pkgs)}})
+	state := collectStateSites(pkgs)
+	ss := make([]string, len(state))
+	for i, s := range state {
+		ss[i] = cstr(s)
+	}
+	out.Emit(Case{Coq: fmt.Sprintf("SitesCase %s %s %s", clist(ms), clist(nd), clist(ss)), Kind: "sites", Nontrivial: true, Key: "sites",
+		Human: map[string]interface{}{"map_range_sites": mapSites, "nondeterminism_sources": nondet, "in_memory_state": state, "packages": len(pkgs)}})
 }
